@@ -231,6 +231,25 @@ CHECKS = {
              'are the bounded native stand-in.',
         technique='AST-generated verification conditions over the real source with an inductively proved cumulative-sum lemma, z3; bounded native comparison against a per-column oracle',
         design_ref='Part III C12'),
+    'C10': dict(
+        category='proof',
+        text='Mesh2DTopology (real bodies): _to_index_array / _get_start_index through face_node_array and the supplied-table branches of '
+             'edge_node_array, face_edge_array, edge_face_array, face_face_array; has_valid_*_connectivity; face / edge / node / max-node / two '
+             'dimension discovery; node / face / edge coordinate lookup; counts; sensible_fill_value. An abstract table (row r has cnt(r) '
+             'entries val(r, j), both uninterpreted) is encoded with start_index absent / 0 / 1 / string, missing entries as NaN, as the '
+             '_FillValue attribute or not at all, rows or columns first, all extents symbolic; the decoded array is proved at a Skolem entry '
+             'to be masked exactly beyond cnt(r) and to equal val(r, j) otherwise -- the same table for every encoding, for all five '
+             'connectivity tables (supplied tables are used as given). Wrong-dimension and dangling tables are rejected with a warning; the '
+             'face_edge _FillValue range check accepts every fill value outside [start, start + edges] and rejects every possible index; '
+             'invalid start_index is refused; sensible_fill_value (string arithmetic, case split on the digit count) is all nines and '
+             'exceeds every node index and face x max-node slot. BOUNDED (native, not proved): the derivation of missing tables '
+             '(make_edge_node_array, make_face_edge_array, make_edge_face_array, make_face_face_array: loops carrying dictionaries and '
+             'counters over a symbolic number of faces are outside the verifier) -- checked on generated meshes against an independent '
+             'oracle for all 16 subsets of supplied tables x encodings.',
+        note=TRUST + 'Assumed: VALID-UGRID (indexes in range, declared fill representation, face_dimension attribute present when the table is '
+             'stored columns first), NP-MA (masked arrays), PY-INT-STR-LEN, A-INT32-SIZE. Derived tables: bounded native stand-in only.',
+        technique='AST-generated verification conditions over the real source for decoding, validity and dimension discovery, z3; derived connectivity tables by bounded native comparison with an independent oracle (not proved)',
+        design_ref='Part III C10'),
 }
 
 NOT_YET = 'check not built yet (work in progress, see DESIGN.md)'
